@@ -9,7 +9,7 @@ from .codec import MQTT_VARIANT_TO_SPEC, CLIENT_OUTBOUND
 EXPLANATION = ('Encoder tables extracted from MIR and compared with the MQTT 5 / 3.1.1 specification tables: packet-type and '
                'property constants, first bytes, the property set and wire type each client-sent packet writes, length '
                'function vs step writer agreement per field, slice getter vs length-prefix field agreement, field coverage '
-               'of the user-visible packet structs, bounded/resumable step processing, per-variant dispatch. Added in round 2: the ordered wire layout of the fixed steps of every writer against the specification layout, CONNECT flag / subscription-option / protocol-level bit layouts, property key vs source field agreement, and identity of the packet that is validated, alias-resolved and encoded.')
+               'of the user-visible packet structs, bounded/resumable step processing, per-variant dispatch. Added in round 2: the ordered wire layout of the fixed steps of every writer against the specification layout, CONNECT flag / subscription-option / protocol-level bit layouts, property key vs source field agreement, and identity of the packet that is validated, alias-resolved and encoded. Added after the mutation sweeps: short forms of the MQTT 5 acknowledgements, DISCONNECT and AUTH agree between length function and writer on all four combinations of default reason code / empty property section (path-sensitive walk); variable byte integer size thresholds and loop termination; the slice helper re-queues a step only when bytes remain; every packet-builder setter stores its argument in the field of its name.')
 ASSUMPTIONS = ['not decided: byte-level equality for arbitrary field values (UTF-8 content, VBI arithmetic over all integers) '
                'and equality of the produced stream across all output-buffer capacity sequences']
 
